@@ -296,6 +296,9 @@ def bounded_collective(tier, seed):
             inp['positions'] = [[0.1, 0.1, 0.1], [0.15, 0.1, 0.1], [0.6, 0.6, 0.1], [0.65, 0.6, 0.1], [0.1, 0.6, 0.6]][:n] if n <= 5 else None
         if c % 10 == 6:
             inp['rows'] = inp['rows'][:1]  # a table with a single jump: one solo jump, no pair
+        if c % 5 == 3:
+            # large atom indices (the diffusing atoms of a big cell are not numbered 0..3): the same-atom test is about the value of the index
+            inp['rows'] = [[r_[0] + 1000 * (1 + r_[0])] + r_[1:] for r_ in inp['rows']]
         if c % 3 == 2:
             # the same few sites recurring in different groupings: two adjacent pairs (p,p+1), (q,q+1) far apart on a ring of 8-10 sites, so
             # that A->B with C->D is a far pair of jumps while A->C with B->D is a close one
